@@ -484,6 +484,12 @@ func checkSiblingLoop(c *Check, fn *ssa.Function, listField string, failCalls []
 	key := p.FuncKey(fn)
 	recv := vParam(fn, 0)
 	list := vField(recv, listField)
+	if len(fn.Params) > 0 {
+		if _, isSlice := fn.Params[0].Type().Underlying().(*types.Slice); isSlice {
+			// the list itself is handed in; every caller must pass the tree's own list (checked at the call sites: C01.R7)
+			list = recv
+		}
+	}
 	// the sibling element
 	var elem ssa.Value
 	var idx ssa.Value
@@ -789,7 +795,7 @@ func checkMatchAllLeafBound(c *Check) {
 	// converse: accept edges are not followed by a bound-based rejection: every false return is
 	// reachable only through the reject edge or the header edge
 	reject := edgesWhere(fn, exceeds, true)
-	hdr := edgesWhere(fn, cBool(vCall("(*route.baseLeaf).matchHeader")), false)
+	hdr := headerRejectEdges(fn)
 	in, path2 := Query{Fn: fn, Cut: union(reject, hdr)}.FromEntry(falseVerdict(fn))
 	switch {
 	case len(accept) < 2 || !ok:
@@ -872,7 +878,8 @@ func checkDispatchEntry(c *Check) {
 		idx := vIdxSlash(rest)
 		okL, okS := false, false
 		for _, ci := range callsNamed(m, "(*route.baseTree).matchLeaf") {
-			if recv(ci.Common().Args[0]) && rest(ci.Common().Args[1]) {
+			// the leaves are reached through the tree itself or handed over as its `leaves` list
+			if a0 := ci.Common().Args[0]; (recv(a0) || vField(recv, "leaves")(a0)) && rest(ci.Common().Args[1]) {
 				g := edgesWhere(m, cCmp(token.EQL, idx, vConstInt(-1)), true)
 				if ok, _ := guardedBy(m, g, isInstr(ci)); ok && len(g) > 0 {
 					okL = true
